@@ -108,6 +108,15 @@ var AnyFunc = bigslice.Func(func(x interface{}) bigslice.Slice {
 	return bigslice.Const(1, []int{1, 2})
 })
 
+// PassFunc returns its Result argument unchanged: it has no tasks of its own, so its other
+// argument is not encoded until a later invocation that consumes its Result is sent to a worker.
+var PassFunc = bigslice.Func(func(r bigslice.Slice, x interface{}) bigslice.Slice { return r })
+
+// ConsumeFunc runs tasks over its argument.
+var ConsumeFunc = bigslice.Func(func(r bigslice.Slice) bigslice.Slice {
+	return bigslice.Map(r, func(k int, v string) (int, string) { return k, v })
+})
+
 type unexportedOnly struct{ a, b int }
 
 type c16args struct {
@@ -289,6 +298,7 @@ func runC16unencodable(t *vf.T, name string, v interface{}, conf sessConf) {
 	defer ls.Close()
 	done := make(chan struct{})
 	var err error
+	mark := logMark()
 	t0 := time.Now()
 	go func() {
 		defer close(done)
@@ -299,12 +309,24 @@ func runC16unencodable(t *vf.T, name string, v interface{}, conf sessConf) {
 		}()
 		_, err = ls.Sess.Run(bgctx, AnyFunc, v)
 	}()
-	select {
-	case <-done:
-	case <-time.After(60 * time.Second):
-		runs := ls.IP.count("Worker.Run") + ls.IP.count("Worker.Compile")
-		t.Violate("unencodable "+name+" no-prompt-error", fmt.Sprintf("Run with an unencodable %s argument had not returned after 60 s (%d Worker.Compile/Run RPCs so far)", name, runs))
-		return
+	for i := 0; ; i++ {
+		select {
+		case <-done:
+		case <-time.After(100 * time.Millisecond):
+			// decided on what the evaluator does, not on elapsed time: a task treated as lost and
+			// resubmitted is a retry; the watchdog alone is inconclusive
+			if n := logCountSince(mark, "evaluator: resubmitting lost task"); n > 0 {
+				t.Violate("unencodable "+name+" retried", fmt.Sprintf("a task of an invocation whose argument cannot be encoded was resubmitted as lost (%d times so far) | library log: %s", n, logTail(8)))
+				return
+			}
+			if i > 1200 {
+				runs := ls.IP.count("Worker.Run") + ls.IP.count("Worker.Compile")
+				t.Inconclusive(fmt.Sprintf("watchdog: Run with an unencodable %s argument had not returned after 120 s (%d Worker.Compile/Run RPCs so far)", name, runs))
+				return
+			}
+			continue
+		}
+		break
 	}
 	_ = t0
 	if err == nil {
@@ -317,6 +339,73 @@ func runC16unencodable(t *vf.T, name string, v interface{}, conf sessConf) {
 	}
 	t.Count("unencodable_rejected", 1)
 	t.Seen("unencodable_kinds", name)
+	t.Nontrivial("")
+}
+
+// runC16lazy: the unencodable value is an argument of an invocation that runs no tasks itself
+// (PassFunc); its encoding is first attempted when a later invocation over its Result is compiled
+// for a worker. That failure, too, must be a prompt fatal error: no task is run, none is
+// resubmitted as lost.
+func runC16lazy(t *vf.T, name string, v interface{}, conf sessConf) {
+	ls := startSession(conf)
+	atomic.AddInt32(&ls.failedRuns, 1) // a run is expected to fail: see liveSession.Close
+	defer ls.Close()
+	base, err := ls.Sess.Run(bgctx, ArgBase, 9)
+	if err != nil {
+		t.Inconclusive("base run: " + err.Error())
+		return
+	}
+	pass, err := ls.Sess.Run(bgctx, PassFunc, base, v)
+	if err != nil {
+		// rejected early: also prompt
+		t.Count("unencodable_rejected", 1)
+		t.Count("unencodable_lazy_rejected_at_pass", 1)
+		t.Nontrivial("")
+		return
+	}
+	mark := logMark()
+	runs0 := ls.IP.count("Worker.Run")
+	done := make(chan struct{})
+	go func() {
+		defer close(done)
+		defer func() {
+			if e := recover(); e != nil {
+				err = fmt.Errorf("panic: %v", e)
+			}
+		}()
+		_, err = ls.Sess.Run(bgctx, ConsumeFunc, pass)
+	}()
+	sig := "unencodable-lazy " + name
+	for i := 0; ; i++ {
+		select {
+		case <-done:
+		case <-time.After(100 * time.Millisecond):
+			if n := logCountSince(mark, "evaluator: resubmitting lost task"); n > 0 {
+				t.Violate(sig+" retried", fmt.Sprintf("a task of an invocation whose arguments cannot be encoded was treated as lost and resubmitted (%d resubmissions so far) instead of failing the run | library log: %s", n, logTail(8)))
+				return
+			}
+			if i > 1200 {
+				t.Inconclusive("watchdog: Run over the Result of an invocation with an unencodable argument had not returned after 120 s")
+				return
+			}
+			continue
+		}
+		break
+	}
+	if err == nil {
+		t.Violate(sig+" run-succeeded", "Run over the Result of an invocation with an unencodable argument succeeded on the distributed executor")
+		return
+	}
+	if n := logCountSince(mark, "evaluator: resubmitting lost task"); n > 0 {
+		t.Violate(sig+" retried", fmt.Sprintf("tasks were resubmitted as lost %d times before Run failed: %v", n, err))
+		return
+	}
+	if n := ls.IP.count("Worker.Run") - runs0; n > 0 {
+		t.Violate(sig+" tasks-were-run", fmt.Sprintf("%d Worker.Run RPCs were issued although the invocation cannot be encoded", n))
+		return
+	}
+	t.Count("unencodable_rejected", 1)
+	t.Count("unencodable_lazy_rejected_at_compile", 1)
 	t.Nontrivial("")
 }
 
@@ -410,6 +499,7 @@ func runC16(r *vf.Runner) {
 	}{{"chan", make(chan int)}, {"func", func() {}}, {"unexported-only-struct", unexportedOnly{1, 2}}, {"struct-with-chan", struct{ C chan int }{make(chan int)}}} {
 		u := u
 		r.Case(map[string]any{"kind": "unencodable", "value": u.name}, func(t *vf.T) { runC16unencodable(t, u.name, u.v, bm2) })
+		r.Case(map[string]any{"kind": "unencodable-lazy", "value": u.name}, func(t *vf.T) { runC16lazy(t, u.name, u.v, bm2) })
 	}
 	for gi, g := range genC16graphs(r.Quick()) {
 		g := g
